@@ -166,14 +166,20 @@ theorem snap_init_inv (total n : Nat) : SnapInv (Snap.init total n) := by
   · intro h; cases h
   · simp
 
-theorem snap_step_inv (s : Snap) (e : SnapEv) (s' : Snap) (h : SnapInv s) (hs : Snap.step s e = some s') : SnapInv s' := by
+theorem snap_step_inv (r : Bool) (s : Snap) (e : SnapEv) (s' : Snap) (h : SnapInv s) (hs : Snap.step r s e = some s') : SnapInv s' := by
   obtain ⟨hperm, hle, hdf, hfa, haf, hed, hlf, hup, hq⟩ := h
   cases e with
+  | enterPut =>
+    simp only [Snap.step] at hs
+    split at hs
+    · cases hs
+      exact ⟨hperm, hle, hdf, hfa, haf, hed, hlf, hup, hq⟩
+    · cases hs
   | put =>
     simp only [Snap.step] at hs
     split at hs
     · rename_i hg
-      obtain ⟨hnf, hlt, hcap⟩ := hg
+      obtain ⟨hnf, _hin, hlt, hcap⟩ := hg
       cases hs
       refine ⟨?_, by simp only; omega, hdf, ?_, haf, ?_, hlf, hup, ?_⟩
       · simp only
@@ -333,11 +339,11 @@ theorem snap_step_inv (s : Snap) (e : SnapEv) (s' : Snap) (h : SnapInv s) (hs : 
       exact ⟨hperm, hle, hdf, hfa, haf, hed, hlf, fun _ => ⟨hg.1, hg.2.1⟩, hq⟩
     · cases hs
 
-theorem snap_reach_inv (total n : Nat) (evs : List SnapEv) (s : Snap) (h : run Snap.step (Snap.init total n) evs = some s) : SnapInv s :=
-  run_inv Snap.step SnapInv (fun s e s' hi hs => snap_step_inv s e s' hi hs) evs _ _ (snap_init_inv total n) h
+theorem snap_reach_inv (r : Bool) (total n : Nat) (evs : List SnapEv) (s : Snap) (h : run (Snap.step r) (Snap.init total n) evs = some s) : SnapInv s :=
+  run_inv (Snap.step r) SnapInv (fun s e s' hi hs => snap_step_inv r s e s' hi hs) evs _ _ (snap_init_inv total n) h
 
 /-- the number of workers and the queue bound never change -/
-theorem snap_step_static (s : Snap) (e : SnapEv) (s' : Snap) (hs : Snap.step s e = some s') :
+theorem snap_step_static (r : Bool) (s : Snap) (e : SnapEv) (s' : Snap) (hs : Snap.step r s e = some s') :
     s'.workers.length = s.workers.length ∧ s'.cap = s.cap ∧ s'.total = s.total := by
   cases e <;> simp only [Snap.step] at hs
   all_goals (repeat' split at hs)
@@ -345,15 +351,26 @@ theorem snap_step_static (s : Snap) (e : SnapEv) (s' : Snap) (hs : Snap.step s e
   all_goals simp [length_set]
 
 /-- every progress step strictly decreases the potential -/
-theorem snap_step_measure (s : Snap) (e : SnapEv) (s' : Snap) (hp : e.progress = true)
-    (hs : Snap.step s e = some s') : s'.measure < s.measure := by
+theorem snap_step_measure (r : Bool) (s : Snap) (e : SnapEv) (s' : Snap) (hp : e.progress = true)
+    (hs : Snap.step r s e = some s') : s'.measure < s.measure := by
   cases e with
+  | enterPut =>
+    simp only [Snap.step] at hs
+    split at hs
+    · rename_i hg
+      cases hs
+      have : s.inPut = false := by simpa using hg.2.1
+      simp only [Snap.measure, this]
+      simp
+    · cases hs
   | put =>
     simp only [Snap.step] at hs
     split at hs
     · rename_i hg
       cases hs
-      simp only [Snap.measure, length_append, length_singleton]
+      have : s.inPut = true := hg.2.1
+      simp only [Snap.measure, length_append, length_singleton, this]
+      simp only [if_true, Bool.false_eq_true, if_false]
       omega
     · cases hs
   | prodStop =>
